@@ -38,7 +38,7 @@ def _tag(c, second=False):
 def observe(case):
     e = _env()
     ck = case['ck']
-    lib_commits = {c: ([c - 1] if c > 1 else [], ('BUG-7 lib %d' % c) if case['cmatch'][c - 1] else 'lib other %d' % c, {})
+    lib_commits = {c: (sorted(case['cparents'][c - 1], reverse=(c % 2 == 0)), ('BUG-7 lib %d' % c) if case['cmatch'][c - 1] else 'lib other %d' % c, {})
                    for c in range(1, ck + 1)}
     lib_tags = {_tag(c): c for c in range(1, ck + 1) if case['ctagged'][c - 1] >= 1}
     lib_tags.update({_tag(c, True): c for c in range(1, ck + 1) if case['ctagged'][c - 1] == 2})
@@ -88,10 +88,18 @@ def observe(case):
     want = case['incl']
     if isinstance(want, list):
         want = {str(i + 1): v for i, v in enumerate(want)}
+    ctagged = [c + 1 for c in range(ck) if case['ctagged'][c] >= 1]
+    if isinstance(case['incl'], list) and len(case['incl']) != len(ctagged):
+        return 'machinery: incl does not cover the tagged component commits'
+    if isinstance(case['incl'], list):
+        want = {str(c): v for c, v in zip(ctagged, case['incl'])} if ctagged != list(range(1, len(ctagged) + 1)) else want
     want = {int(k): set((x[0], x[1]) for x in v) for k, v in want.items()}
-    if set(real_incl) != set(want):
-        return 'report-related component builds %s, expected %s' % (sorted(real_incl), sorted(want))
-    for cb in sorted(want):
+    rb = set(case['rb'])
+    if case['linear'] and set(real_incl) != rb:
+        return 'report-related component builds %s, expected %s' % (sorted(real_incl), sorted(rb))
+    if not set(real_incl) <= set(want):
+        return 'report-related component builds %s are not all tagged commits %s' % (sorted(real_incl), sorted(want))
+    for cb in sorted(real_incl):
         if real_incl[cb] != want[cb]:
             return ('component build %d (tag %s) is recorded as included at %s, the first parent builds that ship it are %s'
                     % (cb, _tag(cb), sorted(real_incl[cb]), sorted(want[cb])))
@@ -118,9 +126,9 @@ def _job(case):
         signal.alarm(0)
 
 
-def _cfg(mcomp, mc, mt, mb, emit, invs=True):
+def _cfg(mcomp, mc, mt, mb, emit, invs=True, diamond=False):
     return ('SPECIFICATION Spec\nCHECK_DEADLOCK FALSE\nCONSTANTS\n  MaxComp = %d\n  MaxCommits = %d\n  MaxTags = %d\n  MaxBranches = %d\n'
-            '  Emit = %s\n' % (mcomp, mc, mt, mb, 'TRUE' if emit else 'FALSE')
+            '  Emit = %s\n  Diamond = %s\n' % (mcomp, mc, mt, mb, 'TRUE' if emit else 'FALSE', 'TRUE' if diamond else 'FALSE')
             + ('INVARIANT IncludedSomewhere\nINVARIANT NeverTwiceOnAPath\n' if invs else ''))
 
 
@@ -158,14 +166,25 @@ def repo_order_case(case):
 
 
 def run(ctx):
-    ctx.assumptions += ['linear single-branch component; parent histories with merges and up to 2 (quick) / 3 branches whose heads '
+    ctx.assumptions += ['single-branch component whose history may contain parallel sub-branches and merges (for non-linear components the '
+                        'report-related builds are taken from the component report itself); parent histories with merges and up to 2 (quick) / 3 branches whose heads '
                         'do not lie inside a lower-sorted branch (known finding F-C06 of C06 lives there); pins never decrease '
-                        'along a path and name existing component builds; all commit times within a few hours (inside the '
+                        'along a path (the new pin contains the old one) and name existing component builds; all commit times within a few hours (inside the '
                         'cut-off windows)']
     ctx.tlc('ghist/GHistComp.tla', _cfg(2, 2, 2, 2, False) if ctx.quick else _cfg(2, 3, 2, 2, False), workers=16, timeout=3000)
     r = ctx.tlc('ghist/GHistComp.tla', _cfg(2, 2, 2, 2, True, invs=False) if ctx.quick else _cfg(2, 3, 2, 2, True, invs=False),
                 workers=16, timeout=7200, heap='16g')
     cases = [c for c in r.printed if isinstance(c, dict)]
+    if not ctx.quick:
+        r = ctx.tlc('ghist/GHistComp.tla', _cfg(3, 2, 2, 2, True, invs=False), workers=16, timeout=7200, heap='16g')
+        cases += [c for c in r.printed if isinstance(c, dict)]
+    # component with two parallel sub-branches that are merged (diamond), parent of 2 commits on one branch
+    r = ctx.tlc('ghist/GHistComp.tla', _cfg(4, 2, 2, 1, True, invs=False, diamond=True), workers=16, timeout=7200, heap='16g')
+    dia = [c for c in r.printed if isinstance(c, dict)]
+    if ctx.quick:
+        dia = ctx.rnd.sample(dia, min(15000, len(dia)))
+    ctx.extra['diamond_component_pairs'] = len(dia)
+    cases += dia
     n_exh = len(cases)
     if n_exh < 1000:
         raise Machinery('GHistComp emitted %d cases' % n_exh)
@@ -189,22 +208,23 @@ def run(ctx):
     for c, prob in zip(ro, res):
         if prob:
             ctx.violation({'repo_order': c}, prob)
-    bad = json.loads(json.dumps(next(c for c in cases if c['rb'])))
+    bad = json.loads(json.dumps(next(c for c in cases if c['rb'] and c['linear'])))
     inc = bad['incl']
+    k0 = bad['rb'][0]
     if isinstance(inc, list):
-        inc[0] = inc[0] + [['master', 99]]
+        inc[k0 - 1] = inc[k0 - 1] + [['master', 99]]
     else:
-        k = sorted(inc)[0]
-        inc[k] = inc[k] + [['master', 99]]
+        inc[str(k0)] = inc[str(k0)] + [['master', 99]]
     ctx.selftest(observe(bad) is not None, 'replay accepted a corrupted included_at expectation')
     ctx.traces = len(cases) + len(ro)
     ctx.exhaustive = False
     ctx.extra['history_pairs_exhaustive'] = n_exh
     ctx.extra['history_pairs_simulated'] = len(sim)
     ctx.extra['pairs_with_report_related_component_builds'] = sum(1 for c in cases if c['rb'])
+    ctx.extra['pairs_with_non_linear_component'] = sum(1 for c in cases if not c['linear'])
     ctx.extra['dependency_graphs'] = len(ro)
     for c in (cases[5], cases[n_exh // 2], cases[-1]):
-        ctx.sample({k: c[k] for k in ('ck', 'cmatch', 'ctagged', 'h', 'pin', 'incl')})
+        ctx.sample({k: c[k] for k in ('ck', 'cparents', 'cmatch', 'ctagged', 'h', 'pin', 'incl')})
 
 
 def replay(ctx, case):
